@@ -55,3 +55,28 @@ pub(crate) fn prune_journal(
     }
     Ok(())
 }
+
+/// Returns the highest job id and the highest worker id that were issued according to the journal.
+///
+/// A restarted server continues to number jobs and workers behind the highest ids that it finds
+/// in the journal. The records of the newest job and of the newest worker therefore have to
+/// survive pruning even if they are no longer live, otherwise the ids of pruned jobs and
+/// workers would be issued again after a restart.
+pub(crate) fn find_newest_ids(
+    reader: &mut JournalReader,
+) -> crate::Result<(Option<JobId>, Option<WorkerId>)> {
+    let mut newest_job_id = None;
+    let mut newest_worker_id = None;
+    for event in reader {
+        match event?.payload {
+            EventPayload::Submit { job_id, .. } | EventPayload::JobOpen(job_id, _) => {
+                newest_job_id = newest_job_id.max(Some(job_id));
+            }
+            EventPayload::WorkerConnected(worker_id, _) => {
+                newest_worker_id = newest_worker_id.max(Some(worker_id));
+            }
+            _ => {}
+        }
+    }
+    Ok((newest_job_id, newest_worker_id))
+}
